@@ -288,6 +288,11 @@ func genC07Body(t *rapid.T, forServer bool) ([]byte, string) {
 	for i := 0; i < n; i++ {
 		msgs = append(msgs, genMsg(t, "m", 600).Build())
 	}
+	if n >= 2 && rapid.IntRange(0, 5).Draw(t, "bigone") == 0 {
+		// one large message among small ones (buffer-retention boundaries: 4 KiB .. 70 KB)
+		k := rapid.IntRange(0, n-2).Draw(t, "bigat")
+		msgs[k] = MsgSpec{Size: rapid.SampledFrom([]int{4096, 16383, 16384, 20000, 32768, 65536, 70000}).Draw(t, "bigsize"), Fill: 9}.Build()
+	}
 	var tr *httpgrpc.HttpTrailer
 	if !forServer {
 		tr = &httpgrpc.HttpTrailer{Code: rapid.SampledFrom([]int32{0, 0, 0, 2, 5, 13}).Draw(t, "trcode"), Message: "OK"}
